@@ -41,7 +41,7 @@ func deepFieldPrograms(maxDepth int, do func(string)) {
 
 // builtinLikeFields: fields and variables whose names resemble the block builtins TYPE / NAME.
 func builtinLikeFields(do func(string)) {
-	for _, id := range []string{"name", "type", "Name", "Type", "tYPE", "names", "TYPES", "NAME_", "_TYPE"} {
+	for _, id := range []string{"name", "type", "Name", "Type", "tYPE", "names", "TYPES", "NAME_", "_TYPE", "TYPE", "NAME"} {
 		do(fmt.Sprintf("def b \"nm\" { %s = 1; print %s; print NAME; print TYPE; def c { print %s; %s = 2; print %s }; print %s }", id, id, id, id, id, id))
 		do(fmt.Sprintf("def b \"nm\" { print %s }", id))
 		do(fmt.Sprintf("var %s = 3; def b \"nm\" { print %s; %s = 4; var %s = %s + 1; print %s }; print %s", id, id, id, id, id, id, id))
@@ -151,7 +151,7 @@ func init() {
 			// many variables: slots and constants whose number needs 1, 2 or 3 operand bytes, and slot
 			// numbers that coincide with opcode numbers
 			for _, sc := range gen.ScaledFamilies(false) {
-				if strings.HasPrefix(sc.Name, "locals-") || strings.HasPrefix(sc.Name, "opbyte-") || strings.HasPrefix(sc.Name, "vars-") {
+				if strings.HasPrefix(sc.Name, "locals-") || strings.HasPrefix(sc.Name, "opbyte-") || strings.HasPrefix(sc.Name, "vars-") || strings.HasPrefix(sc.Name, "constpool-bind") {
 					do(sc.Src)
 				}
 			}
@@ -173,7 +173,7 @@ func init() {
 	// C03 — result blocks mirror the definitions in the source
 	var a3 []gen.Sym
 	for _, t := range []string{"a", "b"} {
-		for _, n := range []string{"", ` "n"`, ` "m"`, ` ""`, ` "n."`} {
+		for _, n := range []string{"", ` "n"`, ` "m"`, ` ""`, ` "n."`, ` "n\\"`} {
 			s := "def " + t + n + " {"
 			a3 = append(a3, gen.Sym{Top: s, In: s, Delta: 1})
 		}
@@ -188,11 +188,21 @@ func init() {
 		inOnly("a = 1"), both("print 1/0"), topOnly("bind a -> struct"), topOnly("bind b:all -> slice"))
 	registerSeq(seqSpec{
 		id: "C03",
-		rule: "explicit enumeration of all statement sequences up to length L (quick 5, thorough 6) over a 28-symbol alphabet: def of 2 types x 5 name forms (none, two names, empty, a name ending in a dot), close, field assignments (2 fields x 4 values incl. re-assignment and self-reference), " +
+		rule: "explicit enumeration of all statement sequences up to length L (quick 5, thorough 6) over a 30-symbol alphabet: def of 2 types x 6 name forms (none, two names, empty, a name ending in a dot, a name ending in a backslash), close, field assignments (2 fields x 4 values incl. re-assignment and self-reference), " +
 			"variables, TYPE/NAME/field reads, a field named like a child type, a runtime error, two bind statements (which must not disturb the result); nesting <=3. The []Block returned by the real Interpret (order, Type, Name, Fields with dynamic types, children keyed type / type.name, no variables), " +
 			"the duplicate-child runtime error and the blocks returned alongside a runtime error are compared with the reference evaluator.",
 		sub: newRefSub("c03.seq"), alpha: a3,
-		extra:    func(c *fw.Ctx, do func(string)) { deepFieldPrograms(5, do) },
+		extra: func(c *fw.Ctx, do func(string)) {
+			deepFieldPrograms(5, do)
+			builtinLikeFields(do)
+			do(`def b "nm" { NAME = "label"; id = NAME; print NAME; def TYPE {}; print TYPE; t = TYPE }`)
+			do(`def b "nm" { def NAME "x" {}; def in { print NAME; print TYPE; TYPE = 3; y = TYPE } }`)
+			for _, sc := range gen.ScaledFamilies(false) {
+				if strings.HasPrefix(sc.Name, "manyblocks-") || strings.HasPrefix(sc.Name, "constpool-bind") {
+					do(sc.Src)
+				}
+			}
+		},
 		quickLen: 5, thorLen: 6, maxNest: 3, budgetQ: 100, budgetT: 1500,
 		mustSee:     []string{"accepted-ok", "accepted-rterr:dupchild", "accepted-rterr:divzero", "accepted-rterr:unresolved"},
 		assumptions: []string{"reading a closed child through its key and assigning a field under a closed child's key are left open by the documentation and excluded"},
@@ -210,10 +220,12 @@ func init() {
 		topOnly("bind a:2 -> struct"), topOnly("bind a:foo -> slice"), topOnly("bind a -> oops"), topOnly("print 1/0"),
 		topOnly("def c { bind a -> slice }"), topOnly("def c { def a { i = 9 } }"),
 		// a type that differs from `a` only in letter case, and selectors that merely evaluate to 1
-		topOnly("def A { i = 4 }"), topOnly("bind A -> struct"), topOnly("bind a:01 -> struct"), topOnly("bind a:0x1 -> slice"))
+		topOnly("def A { i = 4 }"), topOnly("bind A -> struct"), topOnly("bind a:01 -> struct"), topOnly("bind a:0x1 -> slice"),
+		// selector and target words in each other's place
+		topOnly("bind a:struct -> slice"), topOnly("bind a -> first"), topOnly("bind a:slice -> all"))
 	registerSeq(seqSpec{
 		id: "C04",
-		rule: "explicit enumeration of all toplevel statement sequences up to length L (quick 5, thorough 6; rejected prefixes are not extended) over a 27-symbol alphabet: three distinguishable block definitions of two types, bind with every selector (none, 1, first, last, all) x target (struct, slice), " +
+		rule: "explicit enumeration of all toplevel statement sequences up to length L (quick 5, thorough 6; rejected prefixes are not extended) over a 30-symbol alphabet: three distinguishable block definitions of two types, bind with every selector (none, 1, first, last, all) x target (struct, slice), " +
 			"bind of another / of a missing type, the compile-error forms (:all->struct, :2, :foo, ->oops), a bind inside a block, a block of the bound type nested inside another block (must not be selected), a runtime error. Compared with a trivial reference: binding kind and exact blocks, runtime-error class, rejection, one warning per bind after the first, nil binding without bind.",
 		sub: newRefSub("c04.seq"), alpha: a4,
 		extra: func(c *fw.Ctx, do func(string)) {
